@@ -21,6 +21,9 @@ struct RegInner {
     clone_panic_in: i64,
     /// Countdown of weigher calls until an injected panic (<0: disabled).
     weigh_panic_in: i64,
+    /// Countdown of predicate evaluations until an injected panic (<0: disabled).
+    pred_panic_in: i64,
+    pred_injected: u32,
     injected: u32,
 }
 
@@ -35,6 +38,8 @@ impl Registry {
             inner: Mutex::new(RegInner {
                 clone_panic_in: -1,
                 weigh_panic_in: -1,
+                pred_panic_in: -1,
+                pred_injected: 0,
                 ..Default::default()
             }),
         })
@@ -97,6 +102,26 @@ impl Registry {
     }
     pub fn arm_weigh_panic(&self, after: i64) {
         self.lock().weigh_panic_in = after;
+    }
+    pub fn arm_pred_panic(&self, after: i64) {
+        self.lock().pred_panic_in = after;
+    }
+    /// One evaluation of an invalidate_entries_if predicate; true = panic now.
+    pub fn tick_pred(&self) -> bool {
+        let mut r = self.lock();
+        if r.pred_panic_in == 0 {
+            r.pred_panic_in = -1;
+            r.injected += 1;
+            r.pred_injected += 1;
+            return true;
+        }
+        if r.pred_panic_in > 0 {
+            r.pred_panic_in -= 1;
+        }
+        false
+    }
+    pub fn pred_injected(&self) -> u32 {
+        self.lock().pred_injected
     }
     pub fn injected(&self) -> u32 {
         self.lock().injected
